@@ -34,12 +34,19 @@ def nproc():
     return int(os.environ.get("VERIF_NPROC", "16"))
 
 
-def pool_map(fn, jobs, chunksize=2):
+def smoke(jobs):
+    """development only (VERIF_SMOKE_JOBS=n): an evenly strided subset, to exercise a tier's code paths"""
+    cap = int(os.environ.get("VERIF_SMOKE_JOBS", "0"))
+    if cap and len(jobs) > cap:
+        return jobs[:: max(1, len(jobs) // cap)][:cap]
+    return jobs
+
+
+def pool_map(fn, jobs, chunksize=2, smoke_cap=True):
+    if smoke_cap:
+        jobs = smoke(jobs)
     if not jobs:
         return []
-    cap = int(os.environ.get("VERIF_SMOKE_JOBS", "0"))   # development only: exercise a tier's code paths on an evenly strided subset
-    if cap and len(jobs) > cap:
-        jobs = jobs[:: max(1, len(jobs) // cap)][:cap]
     with Pool(min(nproc(), max(1, len(jobs)))) as p:
         return p.map(fn, jobs, chunksize=chunksize)
 
